@@ -606,7 +606,18 @@ class StmtMixin:
             return []
         return [m for m in c.modifies_ if m.startswith("self.")]
 
+    def returned_local(self):
+        """name of the local the function returns by a trailing `return <name>` (its accumulator), if any"""
+        if not hasattr(self, "_returned_local"):
+            body = self.kernel.node.body
+            last = body[-1] if body else None
+            self._returned_local = last.value.id if isinstance(last, ast.Return) and isinstance(last.value, ast.Name) else None
+        return self._returned_local
+
     def loop_env(self, st, ordinal, k, view):
+        rl = self.returned_local()
+        if rl is not None and rl in st.env:
+            st.env["_retvar"] = st.env[rl]     # invariants name the accumulator by role, not by its incidental local name
         st.env[f"_k{ordinal}"] = S_int(k)
         st.env[f"_n{ordinal}"] = S_int(view.length) if view is not None else S_int(0)
         if view is not None and view.seq is not None:
@@ -629,6 +640,16 @@ class StmtMixin:
         from .dsl import LoopSpec
         if ls is None:
             ls = LoopSpec()
+        summary = self.filter_append_summary(node, st) if (not ls.invariants and ls.unroll is None) else None
+        if summary is not None:
+            # `for x in S: [if P:] acc.append(E)` has exactly the meaning of `acc += [E for x in S if P]`: executed as the
+            # comprehension (no invariant needed; the two spellings of one function verify alike)
+            acc, comp = summary
+            cur = st.env[acc]
+            add = self.e_ListComp(comp, st)
+            spec = cur.spec if (cur.spec is not None and cur.spec.arg != VAL) else Spec("seq", elem_spec(add), cur.spec.tup if cur.spec else False)
+            st.env[acc] = Sym("seq", Q.Concat(st, cur.t, add.t), spec)
+            return self.simple(st)
         it = self.eval(node.iter, st)
         view = self.iter_view(it, st, node)
         outs = self.flush(st)
@@ -670,6 +691,33 @@ class StmtMixin:
             outs.append((exit_st, NORMAL))
         outs.extend((s, NORMAL) for s in exits)
         return outs
+
+    def filter_append_summary(self, node, st):
+        """(accumulator name, equivalent ListComp node) for a loop whose whole body is `acc.append(E)` or `if P: acc.append(E)`
+        on a local list `acc` that neither the element expression, the condition nor the iterable mentions"""
+        if node.orelse or len(node.body) != 1:
+            return None
+        stmt = node.body[0]
+        cond = None
+        if isinstance(stmt, ast.If) and not stmt.orelse and len(stmt.body) == 1:
+            cond, stmt = stmt.test, stmt.body[0]
+        if not (isinstance(stmt, ast.Expr) and isinstance(stmt.value, ast.Call) and isinstance(stmt.value.func, ast.Attribute) and stmt.value.func.attr == "append"
+                and isinstance(stmt.value.func.value, ast.Name) and len(stmt.value.args) == 1 and not stmt.value.keywords):
+            return None
+        acc = stmt.value.func.value.id
+        if acc not in st.env or st.env[acc].kind != "seq":
+            return None
+        elt = stmt.value.args[0]
+        for part in [elt, node.iter] + ([cond] if cond is not None else []):
+            for n in ast.walk(part):
+                if isinstance(n, ast.Name) and n.id == acc:
+                    return None
+                if isinstance(n, (ast.NamedExpr, ast.Yield, ast.YieldFrom, ast.Await)):
+                    return None
+        comp = ast.ListComp(elt=elt, generators=[ast.comprehension(target=node.target, iter=node.iter, ifs=[cond] if cond is not None else [], is_async=0)])
+        ast.copy_location(comp, node)
+        ast.fix_missing_locations(comp)
+        return acc, comp
 
     def unrolled_for(self, node, st, view, ls, ordinal):
         """Bounded stand-in: the loop is unrolled `ls.unroll` times; the iterable is *assumed* no longer."""
